@@ -83,8 +83,8 @@ func ctxHarness(rc *RunCtx) {
 	tp := rc.Tape
 	s := rc.NewSim(40000, time.Minute)
 	s.MemOn = true
-	nTasks := 2 + tp.Intn("cfg", 5)
-	opsPer := 3 + tp.Intn("cfg", 6)
+	nTasks := 2 + tp.Intn("cfg", rc.Scale(5, 7))
+	opsPer := 3 + tp.Intn("cfg", rc.Scale(6, 10))
 	rc.Sample["tasks"], rc.Sample["ops_per_task"] = nTasks, opsPer
 	rc.Nontrivial = true
 
